@@ -79,3 +79,15 @@ simple("C09", "exploration",
         "statement leaves the outcome open and only the bound and atomicity are judged"],
        lambda tier: [{"name": "limit-enum", "driver": "drv_limit", "config": "rel", "sources": ["harness/drv_limit.cpp"],
                       "args": [], "kinds": ["limit-parse", "limit-hist"]}])
+
+simple("C12", "model_checking",
+       "(i) every init string of <=6/7 tokens over {a,b,=,&,+,%,%4,%41,%zz,?,space,e-acute}; (ii) every list state of <=3/4 pairs "
+       "over 7 keys x 4 values (incl. BMP-above-surrogate vs astral keys), each reached two ways (appends / parsing its "
+       "serialisation), x every operation (append/set/remove/remove(k,v) for all 28 pairs, sort, 3 resets) with all observers "
+       "compared after the step; (iii) sort on every key list of <=4/6 over 13 keys with position values as stability "
+       "witnesses; (iv) serialise->parse round trip on lists of arbitrary byte strings; states = distinct lists, transitions = "
+       "(state, op) steps, every step replayed on the real object (traces_validated)",
+       ["oracle: reflist (vector of pairs, form-urlencoded parser/serializer from the Standard, insertion sort on explicit UTF-16)",
+        "byte-preserving decode (no U+FFFD substitution), as the round-trip clause of the property requires"],
+       lambda tier: [{"name": "params-enum", "driver": "drv_params", "config": "rel", "sources": ["harness/drv_params.cpp"],
+                      "args": [], "kinds": ["params"]}])
